@@ -416,7 +416,50 @@ def gen_lookalikes(tier):
 
 # ---- running -------------------------------------------------------------------
 
-BUILDERS = {"atom": build_atom, "shape": build_shape, "lookalike": build_lookalike}
+# ---- space (e): several program units in one file -------------------------------
+
+UNIT_KEYS = ["module", "program", "blockdata", "ext-sub", "ext-fn", "submodule"]
+
+
+def unit_alphabet(i, first_module):
+    s = str(i)
+    return {
+        "module": lambda: Unit("module", f"um{s}", items=[VarItem(Var(f"uv{s}", "integer"))],
+                               procs=[Proc("subroutine", f"us{s}", args=[Var("x", "integer", ["intent_in"])])]),
+        "program": lambda: Unit("program", "uprog", items=[VarItem(Var("upv", "real"))], body=["continue"],
+                                procs=[Proc("function", "upf", args=[], rettype="integer", body=["upf = 1"])]),
+        "blockdata": lambda: Unit("blockdata", f"ub{s}", items=[Common(f"uc{s}", [Var(f"ucx{s}", "integer"), Var(f"ucy{s}", "real")])],
+                                  body=[f"data ucx{s} /1/"]),
+        "ext-sub": lambda: Proc("subroutine", f"xs{s}", args=[Var("a", "real", ["intent_inout"])], decls=[Var(f"xl{s}", "integer")],
+                                body=[f"xl{s} = 1"]),
+        "ext-fn": lambda: Proc("function", f"xf{s}", args=[Var("a", "real")], rettype="integer", body=[f"xf{s} = 1"]),
+        "submodule": lambda: Unit("submodule", f"usm{s}", items=[VarItem(Var(f"usv{s}", "integer"))], ancestor=first_module,
+                                  procs=[Proc("subroutine", f"uss{s}", args=[])]),
+    }
+
+
+def build_files(case):
+    _, _, seq = case
+    first_module = next((f"um{i}" for i, k in enumerate(seq, 1) if k == "module"), None)
+    return SourceFile("m.f90", [unit_alphabet(i, first_module)[k]() for i, k in enumerate(seq, 1)])
+
+
+def gen_files(tier):
+    """every sequence of <= 3 program units in one file (a program at most once; a submodule needs a module in the file)"""
+    out = []
+    for n in (1, 2, 3):
+        for seq in itertools.product(UNIT_KEYS, repeat=n):
+            if seq.count("program") > 1 or ("submodule" in seq and "module" not in seq):
+                continue
+            if tier == "quick":
+                b = 1 if n <= 2 or "blockdata" in seq else 0
+            else:
+                b = 2 if n <= 2 or "blockdata" in seq else 1
+            out.append((("files", f"n{n}", seq), b))
+    return out
+
+
+BUILDERS = {"atom": build_atom, "shape": build_shape, "lookalike": build_lookalike, "files": build_files}
 IGNORE_FIELDS = ()
 
 
@@ -473,7 +516,7 @@ def work(chunk):
 
 def all_cases(tier):
     b = 1 if tier == "quick" else 2
-    return [(c, b) for c in itertools.chain(gen_atoms(tier), gen_twolit(tier))] + gen_shapes(tier) + [(c, 1) for c in gen_lookalikes(tier)]
+    return [(c, b) for c in itertools.chain(gen_atoms(tier), gen_twolit(tier))] + gen_shapes(tier) + [(c, 1) for c in gen_lookalikes(tier)] + gen_files(tier)
 
 
 def replay(path):
@@ -520,7 +563,7 @@ def main(tier, replay_path=None):
     return core.finish(
         PROP, tier, "model_checking", total, t0,
         rule=(f"{len(cases)} abstract programs (declaration atoms per host scope; all sequences of specification items x procedures x unit kind; "
-              f"executable look-alikes), each explored with every combination of <= {bound} non-default spelling choices of the renderer; "
+              f"executable look-alikes; all sequences of <= 3 program units incl. block data in one file), each explored with every combination of <= {bound} non-default spelling choices of the renderer; "
               "distinct_nontrivial = distinct (program, deviation set); states = distinct canonical trees observed; transitions = choice points passed"),
         assumptions=[
             "alternate returns, ENTRY, implicit typing of locals, EQUIVALENCE/DATA, EXTERNAL attribute, character*n entity lengths and identifiers equal to type keywords are outside the supported subset and not generated",
